@@ -137,9 +137,12 @@ type ecfg struct {
 	tos    []toC
 	hooks  map[int]int
 	hookOr []int
+	conns  []connC
 	del    int
 	opt    map[string]int64
 }
+
+type connC struct{ cid, fail, par int }
 
 func parseInts(s string) []int {
 	var r []int
@@ -166,6 +169,8 @@ func parseCfg(items []string) *ecfg {
 		case "H":
 			c.hooks[atoi(f[1])] = atoi(f[2])
 			c.hookOr = append(c.hookOr, atoi(f[1]))
+		case "K":
+			c.conns = append(c.conns, connC{atoi(f[1]), atoi(f[2]), atoi(f[3])})
 		case "D":
 			c.del = atoi(f[1])
 		case "Z":
@@ -314,6 +319,27 @@ func (e *engine) build(inst int) *workflow.Workflow[Obj, st] {
 		}
 	}
 	s := e.s
+	for _, cn := range c.conns {
+		cn := cn
+		code := 8000000 + cn.cid
+		u := b.AddConnector(fmt.Sprintf("conn%d", cn.cid), simConnector{s: s, cid: cn.cid}, func(ctx context.Context, api workflow.API[Obj, st], ce *workflow.ConnectorEvent) error {
+			// scripted connector function: fails its first k invocations per event
+			n := e.attempt(code, ce.ID)
+			view := connView(s, ce)
+			planned := "ok"
+			if n < cn.fail {
+				planned = "e70"
+			}
+			s.emit(s.cur, fmt.Sprintf("US:%d:%s/-@%d=%s", code, view, s.now, planned))
+			if n < cn.fail {
+				return userErr{70}
+			}
+			return nil
+		})
+		if cn.par != 0 {
+			u.WithOptions(workflow.ParallelCount(cn.par))
+		}
+	}
 	opts := []workflow.BuildOption{
 		workflow.WithClock(simClock{s}), workflow.WithLogger(nullLogger{}),
 		workflow.WithDefaultOptions(workflow.ParallelCount(int(c.opt["dpar"])), workflow.PauseAfterErrCount(int(c.opt["dpause"])), workflow.ErrBackOff(time.Duration(c.opt["bo"]))),
@@ -520,6 +546,8 @@ func topicOfUnit(u string) string {
 		return "wf-run-state-change"
 	case 'd':
 		return "wf-delete"
+	case 'k':
+		return "conn-" + strings.Split(u[1:], ".")[0]
 	}
 	return "?"
 }
@@ -704,6 +732,14 @@ func (e *engine) doOp(op string) {
 				s.cursors[p.role] = atoi(f[2]) // a rewind only moves a committed position backwards (redelivery)
 			}
 		}
+	case "cs":
+		// the external system behind connector f[1] produces an event with ID unhx(f[2]) for foreign ID f<f[3]>
+		id := unhx(f[2])
+		ge, err := workflow.VerifConnectorEventToEvent(&workflow.ConnectorEvent{ID: id})
+		must(err)
+		s.log = append(s.log, &workflow.Event{ID: ge.ID, ForeignID: "", Type: 0, CreatedAt: simBase.Add(time.Duration(s.now)),
+			Headers: map[workflow.Header]string{workflow.HeaderTopic: "conn-" + f[1], workflow.HeaderForeignID: "f" + f[3],
+				workflow.HeaderRunState: "0", workflow.HeaderRecordVersion: "0", "cev_id": id}})
 	case "dup":
 		i := atoi(f[1])
 		if i < len(s.log) {
